@@ -3,6 +3,7 @@
 -/
 import CbGen.Ladder
 import CbProps.C02
+import CbProps.C02Assign
 namespace CbOblig.C02
 open CbModel.Ladder
 
@@ -12,5 +13,11 @@ theorem ladder_is_spec : CbGen.ladder = specTable := by decide
 /-- (independent of the above) the parser's ladder is well formed, so the round-trip theorems hold
     for the parser as it is -/
 theorem ladder_wf : CbProps.C02.wfCheck CbGen.ladder = true := by decide
+
+/-- the operators parseAssignment tests ARE the specification's assignment operators (level 14, right to left) -/
+theorem assign_ops_are_spec : CbGen.assignOps = specAssignOps := by decide
+
+/-- … and none of them is an operator of a ladder level of the parser as it is, so the assignment theorems apply to it -/
+theorem assign_ops_awf : CbProps.C02Assign.awfCheck CbGen.ladder CbGen.assignOps = true := by decide
 
 end CbOblig.C02
